@@ -719,4 +719,82 @@ func genC12(g *Gen) {
 		g.Stat("ofmany-asof")
 		g.Do("bitmap.OfMany/asOf", L(c12Subs(subs), I32s(sizes)), key)
 	}
+
+	// (10) exhaustive small sub-domains
+	// (a) Get/Get1 at every position inside, SafeGet/SafeGet1 at every i in [-130, 64*len+130], on six small bitmaps
+	for _, ws := range [][]uint64{{}, {1}, {1 << 63}, {5, 1 << 63}, {^uint64(0), 0}, {0, 0x8000000000000001, 6}} {
+		n := 64 * len(ws)
+		for i := -130; i <= n+130; i++ {
+			key := "SafeX/out"
+			if i >= 0 && i < n {
+				key = fmt.Sprintf("GetX/off%s", c13Off(i))
+				g.Do("bitmap.Get", L(U64s(ws), Int(i)), key)
+			}
+			g.Stat("get-exh")
+			g.Do("bitmap.SafeGet", L(U64s(ws), Int(i)), key)
+		}
+	}
+	g.Exhaust = append(g.Exhaust, "Get/Get1 at every inside position and SafeGet/SafeGet1 at every i in [-130, 64*len+130] on 6 bitmaps of 0..3 words")
+	// (b) Builder: every history of at most 2 (thorough: 3) calls over a 10-call alphabet, NewBuilder(0) and NewBuilder(64)
+	balpha := []string{L("0", "[]", "0"), L("0", "[]", "1"), L("0", "[0]", "1"), L("0", "[63]", "64"), L("0", "[64]", "64"),
+		L("0", "[0,1]", "0"), L("1", "0", "1"), L("1", "63", "1"), L("1", "64", "0"), L("1", "64", "1")}
+	maxLen := 2
+	if g.Thorough {
+		maxLen = 3
+	}
+	var hist func(prefix []string)
+	hist = func(prefix []string) {
+		if len(prefix) > 0 {
+			for _, n := range []int{0, 64} {
+				g.Stat("builder-exh")
+				g.Do("bitmap.Builder", L(Int(n), L(prefix...)), fmt.Sprintf("BX/len%d", len(prefix)))
+			}
+		}
+		if len(prefix) == maxLen {
+			return
+		}
+		for _, c := range balpha {
+			hist(append(append([]string{}, prefix...), c))
+		}
+	}
+	hist(nil)
+	g.Exhaust = append(g.Exhaust, fmt.Sprintf("Builder: every history of 1..%d calls over {Extend([],0), Extend([],1), Extend([0],1), Extend([63],64), Extend([64],64), Extend([0,1],0), Set(0,1), Set(63,1), Set(64,0), Set(64,1)} from NewBuilder(0) and NewBuilder(64)", maxLen))
+	// (c) OfMany: every list of at most 3 segments over a 7-segment alphabet; all of them through OfMany/asOf, the
+	// ones whose shifted concatenation is ascending also through OfMany
+	type seg struct {
+		ps   []int32
+		size int32
+	}
+	salpha := []seg{{nil, 0}, {nil, 1}, {[]int32{0}, 1}, {[]int32{0}, 64}, {[]int32{63}, 64}, {[]int32{0, 63}, 64}, {[]int32{64}, 64}}
+	var segs func(prefix []seg)
+	segs = func(prefix []seg) {
+		subs := make([][]int32, len(prefix))
+		sizes := make([]int32, len(prefix))
+		asc, last, base := true, int32(-1), int32(0)
+		for i, sg := range prefix {
+			subs[i] = append([]int32{}, sg.ps...)
+			sizes[i] = sg.size
+			for _, p := range sg.ps {
+				if base+p < last {
+					asc = false
+				}
+				last = base + p
+			}
+			base += sg.size
+		}
+		key := fmt.Sprintf("OMX/seg%d/asc%v", len(prefix), asc)
+		g.Stat("ofmany-exh")
+		g.Do("bitmap.OfMany/asOf", L(c12Subs(subs), I32s(sizes)), key)
+		if asc {
+			g.Do("bitmap.OfMany", L(c12Subs(subs), I32s(sizes)), key)
+		}
+		if len(prefix) == 3 {
+			return
+		}
+		for _, c := range salpha {
+			segs(append(append([]seg{}, prefix...), c))
+		}
+	}
+	segs(nil)
+	g.Exhaust = append(g.Exhaust, "OfMany: every list of 0..3 segments over {([],0), ([],1), ([0],1), ([0],64), ([63],64), ([0,63],64), ([64],64)}")
 }
